@@ -176,7 +176,7 @@ fn run<T: Flt>(src: &mut Src, obs: &mut Obs, two_d: bool) -> Result<(), Fail> {
                 base.as_ref().map(|a| a.v.iter().take(4).map(|v| v.f()).collect::<Vec<_>>()), var.as_ref().map(|a| a.v.iter().take(4).map(|v| v.f()).collect::<Vec<_>>()));
         }
         // owned vs view (different concrete types)
-        let exact_axis = matches!(c.axis_class, AxisClass::Index | AxisClass::Unit | AxisClass::Dyadic);
+        let exact_axis = matches!(c.axis_class, AxisClass::Index | AxisClass::Unit | AxisClass::Dyadic | AxisClass::Symmetric);
         let cross = with_interp1::<T, Out<T>>(explicit_x.then_some(&x_c), !axes_view, &data_c, !data_view, c.dd, &strat, &mut |i| call1(i, ep, &q_c, !q_owned, qd, &mut buf_x));
         if let Some(Ok(cr)) = cross {
             let bit = same(&base, &cr);
@@ -248,6 +248,30 @@ fn run<T: Flt>(src: &mut Src, obs: &mut Obs, two_d: bool) -> Result<(), Fail> {
             };
             let culprit = if var.is_err() && ep >= 2 && ep != 3 && lb != Layout::C { format!("buffer:{}", lb.name()) } else if ld != Layout::C { format!("data:{}", ld.name()) } else { "query-or-axis".to_string() };
             fail!(format!("layout-dependence/2d/{}/{culprit}", if var.is_err() { "failure" } else { "values" }), "the call {what} although only memory layouts differ from the standard-layout run; {ctx}");
+        }
+        // aliasing queries: a square rank-2 query whose ys is the transposed *view* of the very memory behind xs
+        // (a meshgrid built by transposition) must give what two independent arrays with the same contents give
+        if ep == 3 && qshape.len() == 2 && qshape[0] == qshape[1] && qshape[0] >= 2 {
+            let (lo, hi) = (g.x[0].max(g.y[0]), g.x[g.nx - 1].min(g.y[g.ny - 1]));
+            if lo < hi {
+                obs.class("query:aliasing-transpose");
+                let k = qshape[0];
+                let vals: Vec<T> = (0..k * k).map(|m| T::of(lo + (hi - lo) * ((m * 7919 % 97) as f64 / 97.0))).collect();
+                let xx = ArrayD::from_shape_vec(IxDyn(&qshape), vals).unwrap();
+                let yy_owned = xx.view().reversed_axes().to_owned();
+                let yy_std = ArrayD::from_shape_vec(IxDyn(&qshape), yy_owned.iter().cloned().collect()).unwrap();
+                let r = with_interp2::<T, (Out<T>, Out<T>)>(ex.then_some(&x_c), ey.then_some(&y_c), axes_view, &data_c, data_view, g.dd, false, &mut |i| {
+                    let indep = catch(|| i.t_array(xx.view(), yy_std.view(), qd)).map(|o| o.unwrap().map_err(|e| format!("Err({e})"))).unwrap_or_else(|p| Err(format!("panic: {p}")));
+                    let alias = catch(|| i.t_array(xx.view(), xx.view().reversed_axes(), qd)).map(|o| o.unwrap().map_err(|e| format!("Err({e})"))).unwrap_or_else(|p| Err(format!("panic: {p}")));
+                    (indep, alias)
+                });
+                if let Some(Ok((indep, alias))) = r {
+                    obs.asserts += 1;
+                    if !same(&indep, &alias) {
+                        fail!("layout-dependence/2d/aliasing-queries", "ys passed as the transposed view of the memory behind xs gives other results than an independent array with the same contents; {ctx}");
+                    }
+                }
+            }
         }
         let cross = with_interp2::<T, Out<T>>(ex.then_some(&x_c), ey.then_some(&y_c), !axes_view, &data_c, !data_view, g.dd, false, &mut |i| call2(i, ep, &qx_c, &qy_c, !q_owned, qd, &mut buf_x));
         if let Some(Ok(cr)) = cross {
